@@ -238,7 +238,6 @@ def c07_handleLazy (j : Json) (op : String) (d : Nat) (dflt : Int) : Except Stri
   let l := (show List (Int × T d) from t)
   let cfg := c07_cfg j
   let emp := isEmpty dflt d
-  let wemp := wrapEmpty dflt 0 d
   let mk : T d := defaultTree dflt d
   let sp := c07_optNat j "sp"
   let os := c07_optInt j "os"
@@ -257,7 +256,7 @@ def c07_handleLazy (j : Json) (op : String) (d : Nat) (dflt : Int) : Except Stri
     | "project" => do
       let k ← fInt j "k"; let mm ← fInt j "m"
       let iv := c07_optPair j "iv"
-      let m := project emp wemp mk cfg k mm iv sp os oe l
+      let m := project emp mk cfg k mm iv sp os oe l
       let valid : Bool := match sp with
         | none => true
         | some i => decide (0 < k) && projValidStart emp k mm iv i l
@@ -269,7 +268,7 @@ def c07_handleLazy (j : Json) (op : String) (d : Nat) (dflt : Int) : Except Stri
          | some (lo, hi) => (if tr.any (fun c => c ≥ hi) then ["iv-break"] else []) ++ (if tr.any (fun c => c < lo) then ["iv-below"] else [])
          | none => []) ++
         (if sp.isSome then [if valid then "sp-valid" else "sp-invalid"] else []) ++
-        (if k < 0 && dflt != 0 then ["rev-nonzero-default"] else []) ++ (if !within then ["U-outside-active"] else [])
+(if !within then ["U-outside-active"] else [])
       pure (m, srows, tg)
     | "prune" => do
       let pred ← c07_pred d (← field j "pred")
